@@ -22,6 +22,7 @@ Bad(e) ==
     \* embedder cancellation while the peer has stopped reading: the connection ends (hooks run) without waiting for the peer
     ELSE IF e.handshake_ok /\ e.phase = "outbound_stuck" /\ e.prompt_disconnects < e.conns THEN "disconnect_hooks_wait_for_stalled_peer"
     ELSE IF e.handshake_ok /\ ~e.present_during THEN "peer_missing_while_connected"
+    ELSE IF ~e.present_in_disconnect_hook THEN "peer_gone_before_disconnect_callbacks"
     ELSE IF e.present_after THEN "peer_left_in_registry"
     ELSE IF e.alias_after THEN "alias_left_in_registry"
     ELSE IF ~L!Outcome(e.handshake_ok, IF e.conns = 0 THEN 0 ELSE e.connects \div e.conns, IF e.conns = 0 THEN 0 ELSE e.disconnects \div e.conns,
